@@ -220,6 +220,45 @@ def run(F, R):
         ty = [c.types[s_]["s"] for bi, t in fs for s_ in t.get("substs", []) if isinstance(s_, int)]
         R.check("C09-R4", "load-key-and-type", ok and ty == ["common::PersistedApp"], "get_string(self.id) -> from_str::<PersistedApp>", "App::load reads %s as %s" % ([t["name"] for _, t in gt], ty))
 
+    # ---------------------------------------------------------------- R5 the apps are committed with the check's result
+    R.rule("C09-R5", "after an updated app set, every path to the commit that ends the check (or the ping) passes AppSetExt::persist, and AppSetExt::persist visits every app (loop left only by iterator exhaustion)")
+    ucr = [x for x in sm.yields(S, "UpdateCheckResult") if S.nodes[x].ctx is root]
+    cm = sm.env(S, "Storage", "commit")
+    ap = sm.calls(S, "app_set::AppSetExt::persist")
+    if R.floor("C09-R5", "final result event", len(ucr), 1) and R.floor("C09-R5", "AppSetExt::persist calls in a check", len(ap), 1):
+        after = reach(S, S.succ[ucr[0]])
+        cma = [x for x in cm if x in after]
+        R.check("C09-R5", "check-apps-persisted-before-commit", cma and not (set(cma) & reach(S, S.succ[ucr[0]], cut_nodes=ap)), "the final commit of a check is always preceded by AppSetExt::persist",
+                "the final commit of a check can be reached without persisting the app set (cohort/user counting are lost on restart)")
+        R.check("C09-R5", "check-commit-always", cma and not (set(root.returns) & reach(S, S.succ[ucr[0]], cut_nodes=cma)), "every finished check commits", "a finished check can return without commit")
+    if pcs:
+        pc = pcs[0]
+        pap = [x for x in sm.calls(Sr, "app_set::AppSetExt::persist") if smod.descends(Sr.nodes[x].ctx, pc)]
+        pcm = [x for x in sm.env(Sr, "Storage", "commit") if smod.descends(Sr.nodes[x].ctx, pc)]
+        if R.floor("C09-R5", "AppSetExt::persist calls in the ping", len(pap), 1) and R.floor("C09-R5", "commits in the ping", len(pcm), 1):
+            for x in pupd:
+                fin = [y for y in pcm if y in reach_in(Sr, [x], pc)]
+                R.check("C09-R5", "ping-apps-persisted-before-commit", fin and not (set(fin) & reach_in(Sr, [x], pc, cut_nodes=pap)) and not (set(pc.returns) & reach_in(Sr, [x], pc, cut_nodes=fin)),
+                        "after a successful ping the updated apps are persisted and committed", "after a successful ping the commit can be reached without persisting the app set, or the ping returns without commit", Sr.nodes[x].loc())
+    pb = [b for b in c.bodies if b["kind"] == "coroutine" and "app_set::AppSetExt::persist" in b["id"].replace("omaha_client::", "")]
+    if R.floor("C09-R5", "AppSetExt::persist body", len(pb), 1):
+        pv = BV.of(pb[0])
+        calls_ = [(bi, t) for bi, t in pv.calls() if (t.get("callee") or "").endswith("App::persist") or t.get("name") == "persist"]
+        loops = pv.sccs()
+        ok = len(calls_) == 1 and any(calls_[0][0] in L_ for L_ in loops)
+        det = ""
+        if ok:
+            L_ = [x for x in loops if calls_[0][0] in x][0]
+            exits = [(a, b) for a in L_ for b in pv.succ[a] if b not in L_]
+            nexts = [bi for bi, t in pv.calls() if bi in L_ and lib.callee_is(t, "std::iter::Iterator::next")]
+            src = [terms.render(pv, pv.trace_op(t["args"][0]), W, {}) for bi, t in pv.calls() if bi in L_ and lib.callee_is(t, "std::iter::Iterator::next")]
+            det = "loop over %s, %d exit edge(s)" % (src, len(exits))
+            ok = len(exits) == 1 and len(nexts) == 1 and all("get_apps(" in s_ and "filter" not in s_ and "skip" not in s_ and "take" not in s_ for s_ in src)
+            if ok:
+                si = guards.switch_info(pv, exits[0][0])
+                ok = si is not None and "None" in si.edge_names(pv, exits[0][1])
+        R.check("C09-R5", "persist-visits-every-app", ok, "App::persist awaited for every app of get_apps(): " + det, "AppSetExt::persist does not persist every app: " + det)
+
 
 def _is_ping(ctx):
     names = set(t.get("name") for _, t in ctx.bv.calls() if (t.get("callee") or "").startswith("request_builder::RequestBuilder"))
